@@ -222,7 +222,9 @@ def run_real(case):
                     # the files are given by ONE wildcard pattern (dir/f*); what a trace file is called is up to the
                     # user (rank2.trace, no extension at all) - the content decides
                     p = os.path.join(tmp, f"f{i}{['.json', '.trace', '', '.json.1'][(i + case['glob']) % 4]}")
-                p = p or os.path.join(tmp, f"f{i}.json" if gen == 0 else f"f{i}_g{gen}.json")
+                # a JSON trace is a JSON trace whatever else its name says (rank1.log.json, run.pftrace.json)
+                tagn = ["", "", ".log", ".pftrace"][(i + len(case["files"])) % 4]
+                p = p or os.path.join(tmp, f"f{i}{tagn}.json" if gen == 0 else f"f{i}_g{gen}{tagn}.json")
                 with open(p, "w") as fh:
                     json.dump(file_json(f), fh)
                 paths.append(p)
